@@ -82,6 +82,30 @@ theorem offdiag_count (n : ℕ) (P : Fin n → Fin n → Prop) [∀ i j, Decidab
       exact h q.1 q.2 hq
     rw [heq, hcard]
 
+/-- p(p-1) is even (add_edges: p(p-1)/2 is an integer) -/
+theorem consecutive_even (p : ℕ) : ∃ h, p * (p - 1) = 2 * h := by
+  obtain ⟨r, hr⟩ := Nat.even_mul_pred_self p
+  exact ⟨r, by omega⟩
+
+/-- one-point update: predicates that agree everywhere except possibly at `a` have counts differing by the change at `a` -/
+theorem count_update (n a : ℕ) (P Q : ℕ → Prop) [DecidablePred P] [DecidablePred Q] (ha : a < n)
+    (h : ∀ i, i < n → i ≠ a → (P i ↔ Q i)) :
+    (((range n).filter Q).card : ℤ) - (((range n).filter P).card : ℤ)
+      = (if Q a then (1 : ℤ) else 0) - (if P a then (1 : ℤ) else 0) := by
+  rw [Finset.card_filter, Finset.card_filter]
+  push_cast
+  rw [← Finset.sum_sub_distrib]
+  rw [Finset.sum_eq_single a]
+  · intro b hb hba
+    have hiff := h b (mem_range.mp hb) hba
+    by_cases hp : P b
+    · have hq : Q b := hiff.mp hp
+      simp [hp, hq]
+    · have hq : ¬ Q b := fun hq => hp (hiff.mpr hq)
+      simp [hp, hq]
+  · intro hna
+    exact absurd (mem_range.mpr ha) hna
+
 /-! ### set cardinalities (intervention_targets) -/
 
 theorem card_sdiff_of_subset (R S : Finset ℕ) (h : S ⊆ R) : (R \ S).card = R.card - S.card :=
